@@ -126,7 +126,14 @@ def replay_case(arg):
             warnings.simplefilter('ignore', RuntimeWarning)
             plain = make(kind, data_in)
             cut = int(rng.integers(1, nt))
-            composed = chi.ComposedPopulationFilter([make(kind, data[..., :cut].copy()), make(kind, data[..., cut:].copy())])
+            # split into two blocks of time points or -- every other case with three time points -- into one filter per time
+            # point (three sub-filters: the offsets of the blocks accumulate)
+            if nt >= 3 and int(key, 16) % 2 == 0:
+                blocks = [data[..., j:j + 1] for j in range(nt)]
+                cnt['composed_of_three_filters'] = 1
+            else:
+                blocks = [data[..., :cut], data[..., cut:]]
+            composed = chi.ComposedPopulationFilter([make(kind, b.copy()) for b in blocks])
             # ---- documented estimator and density -------------------------------------------
             v = plain.compute_log_likelihood(sim.copy())
             s, g = plain.compute_sensitivities(sim.copy())
@@ -144,6 +151,26 @@ def replay_case(arg):
                 s2, g2 = make(kind, d2).compute_sensitivities(sim.copy())
                 if not interp.close(v2, v) or not interp.close(np.asarray(g2, dtype=float), np.asarray(g, dtype=float)):
                     fail('MissingInvariant', nm, dict(got=float(v2), expected=float(v)))
+            # ---- an outlier: one measurement far from every simulated value; the documented density is finite there ----
+            out = data.copy()
+            cells = np.argwhere(~np.isnan(out))
+            i_, r_, j_ = cells[int(rng.integers(len(cells)))]
+            out[i_, r_, j_] = 1e30 if kind.startswith('LogNormal') else 200.0
+            refo = reference(kind, out)
+            eo = float(np.real(refo(sim.astype(complex))))
+            ego = grad_sim(refo, sim)
+            fo = make(kind, out.copy())
+            vo = fo.compute_log_likelihood(sim.copy())
+            so, go = fo.compute_sensitivities(sim.copy())
+            cnt['evaluations'] = cnt.get('evaluations', 0) + 2
+            cnt['outlier_cases'] = 1
+            if not interp.close(vo, eo) or not interp.close(so, eo):
+                fail('Estimator', 'outlier_value', dict(got=[float(vo), float(so)], expected=eo, cell=[int(i_), int(r_), int(j_)]))
+            elif not interp.close(np.asarray(go, dtype=float), ego, rtol=1e-7, atol=1e-7):
+                fail('Estimator', 'outlier_sensitivities', dict(got=np.asarray(go, dtype=float).tolist(), expected=ego.tolist()))
+            co = chi.ComposedPopulationFilter([make(kind, out[..., :cut].copy()), make(kind, out[..., cut:].copy())])
+            if not interp.close(co.compute_log_likelihood(sim.copy()), eo):
+                fail('PairingOK', 'composed_vs_plain_outlier', dict(expected=eo))
             # ---- histories of sort_times ----------------------------------------------------------
             c0 = composed.compute_log_likelihood(sim.copy())
             if not interp.close(c0, v):
